@@ -64,6 +64,13 @@ package measurements
 //@   inv[C18] hull: this.count > 0 ==> this.lo <= this.value && this.value <= this.hi
 //@   inv[C18] warm_sum: this.count > 0 ==> float64(this.count) * this.lo <= this.sum && this.sum <= float64(this.count) * this.hi
 
+//@ func NewExponentialAverageMeasurement
+//@   requires cfg: 1 <= window && window < 1<<31 && 1 <= warmupWindow && warmupWindow < 1<<31
+//@   ghostset result.lo = 0.0
+//@   ghostset result.hi = 0.0
+//@   ensures[C18] fresh_state: fresh(result) && inv(result) && result.value == 0.0 && result.sum == 0.0 && result.count == 0 && result.window == window && result.warmupWindow == warmupWindow
+//@   assigns nothing
+
 //@ func (*ExponentialAverageMeasurement).Add
 //@   requires sample_ok: isFinite(value) && 0.0 <= value
 //@   maintains[C04,C18] m
